@@ -22,7 +22,11 @@ Byte strings are `List Char` (codes < 256).  The automaton is copied statement b
     if (inSQ || inDQ) return "Missing closing quote in command string";
     if (!arg.empty()) args.push_back(arg);
 
-Two remarks on faithfulness:
+Three remarks on faithfulness:
+* the inner `c = cmd[pos++]` after a backslash is modelled by the state bit `esc` of `go` ("the previous
+  character was a backslash outside single quotes"): the next character is consumed by the same loop
+  iteration in the code and by the next step of `go` in the model; at the end of the input `esc` selects
+  the `pos == end` branch (push the backslash, `break`);
 * `find_first_not_of(' ')` skips a run of blanks at once; the model consumes them one by one, which is
   the same function because a blank seen outside quotes with an empty `arg` pushes nothing;
 * `strchr(s, c)` also finds the terminating NUL of `s`, so a backslash in front of a NUL byte is dropped
